@@ -34,6 +34,10 @@ checks = {
  "C20": ("B", "exhaustive enumeration of expression trees x mutex placements with an unwrap-closure oracle and a lock model on the real code",
          "Every tree of the bounded family (kinds, parenthetical flags, leaf/nil/empty/Stack/Condition(leaf)/Condition(Stack) children, all single-child chains up to length 4/5, aliases in the thorough tier) x mutex placement; after Reveal the depth-first leaf/Condition sequence must be identical, the result must be reachable from the input by unwrapping redexes only (receiver never unwrapped), normal forms equal, depth not larger; lock hooks report re-acquisition of a held mutex as deadlock and a mutex left held.",
          "Trusted: the redex definition copied from the statement; confluence of unwrapping (argued in DESIGN.md).", "§3 C20"),
+
+ "C05": ("B", "exhaustive enumeration of (tree, rebuilt copy) and (tree, every single-point mutant) pairs, both directions",
+         "Every tree of the bounded family - 15 leaf descriptions (primitives, *int, **string, []int, [3]int, []string, map, struct, *struct, embedded struct, struct with unexported field), Conditions over them, nested stacks with and without capacity, an alias - is built twice independently and must compare equal both ways; every single-point mutation (each leaf, each slice/array/map position, renamed key, keyword, operator, kind, capacity, sibling swap, one element more/fewer) must be rejected both ways; a change confined to an unexported struct field must be skipped; no comparison may panic.",
+         "Trusted: the mutation generator; documented equivalences (slice vs array of equal content, pointer flattening) are not counted as differences.", "§3 C05"),
 }
 not_built = {f"C{i:02d}" for i in range(1,21)} - set(checks)
 m = {
